@@ -22,14 +22,14 @@ pub struct ParseCase {
 pub struct C12;
 
 #[derive(Clone, Debug, PartialEq)]
-enum Expect {
+pub enum Expect {
     Accept,
     NotOpened(usize),
     NotClosed(usize),
 }
 
 /// The oracle: a bracket matcher over character indices.
-fn expectation(s: &str) -> Expect {
+pub fn expectation(s: &str) -> Expect {
     let mut stack = vec![];
     for (i, c) in s.chars().enumerate() {
         if c == '[' {
@@ -64,7 +64,7 @@ fn got<T>(r: Result<T, hpbf::Error>, src: &str) -> Result<Expect, String> {
     }
 }
 
-fn parse_checks(c: &ParseCase) -> Result<Info, (String, String)> {
+pub fn parse_checks(c: &ParseCase) -> Result<Info, (String, String)> {
     let s = c.source.as_str();
     let exp = expectation(s);
     let fail = |who: &str, g: Result<Expect, String>| -> Result<(), (String, String)> {
@@ -134,7 +134,7 @@ impl Property for C12 {
         "C12"
     }
     fn rule(&self) -> String {
-        "source strings of 0..60 characters over the eight commands (brackets over-represented), ASCII noise and 2/3/4-byte UTF-8 characters (incl. NUL, BOM, zero-width space), plus balanced generated programs with comment characters spliced in at random character positions. Oracle: a bracket matcher over chars().enumerate() gives Accept | LoopNotOpened(first unmatched ']') | LoopNotClosed(innermost open '['); compared (kind, character position, echoed source) with ir::Program::parse at two cell types and Executor::create of the IR interpreter, the bytecode interpreter and the JIT; InplaceInterpreter::execute_limited must not panic on any string; for accepted strings parse(text) == parse(text without comments), also after optimisation, and the event log of the commented text on all four back ends equals the reference run of the stripped text. Non-trivial: at least two brackets and a non-ASCII character before the error position (character index differs from byte index), or several unclosed loops; distinct = distinct (source, input, level)".into()
+        "source strings of 0..60 characters over the eight commands (brackets over-represented), ASCII noise, 2/3/4-byte UTF-8 characters (incl. NUL, BOM, zero-width space), characters that truncate or mask to a command byte (same low byte such as U+012B for '+', same low 7 bits, command byte in the second byte, fullwidth forms) and arbitrary scalar values, plus balanced generated programs with comment characters spliced in at random character positions. Oracle: a bracket matcher over chars().enumerate() gives Accept | LoopNotOpened(first unmatched ']') | LoopNotClosed(innermost open '['); compared (kind, character position, echoed source) with ir::Program::parse at two cell types and Executor::create of the IR interpreter, the bytecode interpreter and the JIT; InplaceInterpreter::execute_limited must not panic on any string; for accepted strings parse(text) == parse(text without comments), also after optimisation, and the event log of the commented text on all four back ends equals the reference run of the stripped text. Non-trivial: at least two brackets and a non-ASCII character before the error position (character index differs from byte index), or several unclosed loops; distinct = distinct (source, input, level)".into()
     }
     fn assumptions(&self) -> Vec<String> {
         vec!["nesting depth stays moderate (strings are at most 60 characters plus spliced programs)".into()]
@@ -146,14 +146,33 @@ impl Property for C12 {
         }
     }
     fn strategy(&self, _tier: Tier) -> BoxedStrategy<ParseCase> {
-        let text = vec(0..ALPHABET.len(), 0..60).prop_map(|v| v.into_iter().map(|i| ALPHABET[i]).collect::<String>());
+        // non-command characters that a byte- or truncation-based scanner would confuse with commands:
+        // same low byte (U+012B for '+'), same low 7 bits (U+00AB), command byte in the second byte
+        // (U+2B00), fullwidth forms (U+FF0B), plus arbitrary scalar values
+        fn comment_char() -> BoxedStrategy<char> {
+            let confusable = (0usize..8, 0u32..6, 1u32..0x10ff).prop_map(|(c, how, k)| {
+                let b = "+-<>.,[]".as_bytes()[c] as u32;
+                let cp = match how {
+                    0 => b + 0x100 * k,
+                    1 => b | 0x80,
+                    2 => (b << 8) | (k & 0xff),
+                    3 => 0xff00 + (b - 0x20),
+                    4 => b + 0x10000 * (1 + k % 16),
+                    _ => (b << 16 | k) & 0x10ffff,
+                };
+                char::from_u32(cp).filter(|ch| !"+-<>.,[]".contains(*ch)).unwrap_or('\u{12b}')
+            });
+            prop_oneof![6 => (12..ALPHABET.len()).prop_map(|i| ALPHABET[i]), 3 => confusable, 1 => any::<char>().prop_filter("command", |ch| !"+-<>.,[]".contains(*ch))].boxed()
+        }
+        let any_char = prop_oneof![5 => (0..12usize).prop_map(|i| ALPHABET[i]), 4 => comment_char()];
+        let text = vec(any_char, 0..60).prop_map(|v| v.into_iter().collect::<String>());
         // balanced program with comments spliced in
-        let commented = (bf::raw_tokens(2, 40), vec((any::<u16>(), 12..ALPHABET.len()), 0..12)).prop_map(|(t, ins)| {
+        let commented = (bf::raw_tokens(2, 40), vec((any::<u16>(), comment_char()), 0..12)).prop_map(|(t, ins)| {
             let prog = bf::render_raw(&t);
             let mut chars: Vec<char> = prog.chars().collect();
-            for (pos, ci) in ins {
+            for (pos, ch) in ins {
                 let at = (pos as usize * (chars.len() + 1)) >> 16;
-                chars.insert(at, ALPHABET[ci]);
+                chars.insert(at, ch);
             }
             chars.into_iter().collect::<String>()
         });
@@ -186,6 +205,12 @@ impl Property for C12 {
             }
             o => o,
         }
+    }
+    fn fuzz_target(&self) -> Option<&'static str> {
+        Some("parse")
+    }
+    fn decode_fuzz(&self, bytes: &[u8]) -> Option<ParseCase> {
+        crate::fuzzdec::parse_case(&mut arbitrary::Unstructured::new(bytes)).ok()
     }
     fn floors(&self, tier: Tier) -> Vec<(&'static str, u64)> {
         let q = if tier == Tier::Quick { 1 } else { 25 };
